@@ -471,6 +471,18 @@ def bind_native_fun(environment, func, alias=None):
     add(environment, func, alias)
 
 
+def math_func(func, pos, *values):
+    try:
+        return ValueDecimal(func(*values))
+    except (ValueError, OverflowError):
+        raise CklRuntimeError(
+            ValueString("ERROR"),
+            "Cannot calculate " + func.__name__ + " of "
+            + ", ".join(str(value) for value in values),
+            pos,
+        )
+
+
 def get_os_version():
     return platform.release()
 
@@ -516,7 +528,7 @@ class FuncAcos(ValueFunc):
     def execute(self, args, environment, pos):
         if args.isNull("x"):
             return NULL
-        return ValueDecimal(math.acos(args.getNumerical("x").value))
+        return math_func(math.acos, pos, args.getNumerical("x").value)
 
 
 class FuncAdd(ValueFunc):
@@ -653,7 +665,7 @@ class FuncAsin(ValueFunc):
     def execute(self, args, environment, pos):
         if args.isNull("x"):
             return NULL
-        return ValueDecimal(math.asin(args.getNumerical("x").value))
+        return math_func(math.asin, pos, args.getNumerical("x").value)
 
 
 class FuncAtan(ValueFunc):
@@ -675,7 +687,7 @@ class FuncAtan(ValueFunc):
     def execute(self, args, environment, pos):
         if args.isNull("x"):
             return NULL
-        return ValueDecimal(math.atan(args.getNumerical("x").value))
+        return math_func(math.atan, pos, args.getNumerical("x").value)
 
 
 class FuncAtan2(ValueFunc):
@@ -699,10 +711,11 @@ class FuncAtan2(ValueFunc):
             return NULL
         if args.isNull("x"):
             return NULL
-        return ValueDecimal(
-            math.atan2(
-                args.getNumerical("y").value, args.getNumerical("x").value
-            )
+        return math_func(
+            math.atan2,
+            pos,
+            args.getNumerical("y").value,
+            args.getNumerical("x").value,
         )
 
 
@@ -995,7 +1008,7 @@ class FuncCeiling(ValueFunc):
     def execute(self, args, environment, pos):
         if args.isNull("x"):
             return NULL
-        return ValueDecimal(math.ceil(args.getNumerical("x").value))
+        return math_func(math.ceil, pos, args.getNumerical("x").value)
 
 
 class FuncChr(ValueFunc):
@@ -1156,7 +1169,7 @@ class FuncCos(ValueFunc):
     def execute(self, args, environment, pos):
         if args.isNull("x"):
             return NULL
-        return ValueDecimal(math.cos(args.getNumerical("x").value))
+        return math_func(math.cos, pos, args.getNumerical("x").value)
 
 
 class FuncDate(ValueFunc):
@@ -1494,7 +1507,7 @@ class FuncExp(ValueFunc):
     def execute(self, args, environment, pos):
         if args.isNull("x"):
             return NULL
-        return ValueDecimal(math.exp(args.getNumerical("x").value))
+        return math_func(math.exp, pos, args.getNumerical("x").value)
 
 
 class FuncFileInput(ValueFunc):
@@ -1819,7 +1832,7 @@ class FuncFloor(ValueFunc):
     def execute(self, args, environment, pos):
         if args.isNull("x"):
             return NULL
-        return ValueDecimal(math.floor(args.getNumerical("x").value))
+        return math_func(math.floor, pos, args.getNumerical("x").value)
 
 
 class FuncFormatDate(ValueFunc):
@@ -2491,7 +2504,7 @@ class FuncLog(ValueFunc):
     def execute(self, args, environment, pos):
         if args.isNull("x"):
             return NULL
-        return ValueDecimal(math.log(args.getNumerical("x").value))
+        return math_func(math.log, pos, args.getNumerical("x").value)
 
 
 class FuncLower(ValueFunc):
@@ -3469,7 +3482,7 @@ class FuncRound(ValueFunc):
         digits = 0
         if args.hasArg("digits"):
             digits = args.getInt("digits").value
-        return ValueDecimal(round(x.asDecimal().value, digits))
+        return math_func(round, pos, x.asDecimal().value, digits)
 
 
 class FuncRun(ValueFunc):
@@ -3671,7 +3684,7 @@ class FuncSin(ValueFunc):
     def execute(self, args, environment, pos):
         if args.isNull("x"):
             return NULL
-        return ValueDecimal(math.sin(args.getNumerical("x").value))
+        return math_func(math.sin, pos, args.getNumerical("x").value)
 
 
 class FuncSorted(ValueFunc):
@@ -3832,7 +3845,7 @@ class FuncSqrt(ValueFunc):
     def execute(self, args, environment, pos):
         if args.isNull("x"):
             return NULL
-        return ValueDecimal(math.sqrt(args.getNumerical("x").value))
+        return math_func(math.sqrt, pos, args.getNumerical("x").value)
 
 
 class FuncStartsWith(ValueFunc):
@@ -4168,7 +4181,7 @@ class FuncTan(ValueFunc):
     def execute(self, args, environment, pos):
         if args.isNull("x"):
             return NULL
-        return ValueDecimal(math.tan(args.getNumerical("x").value))
+        return math_func(math.tan, pos, args.getNumerical("x").value)
 
 
 class FuncTimestamp(ValueFunc):
